@@ -6,7 +6,7 @@ MCI = 'cardutil/mciipm.py'
 
 PINB = 'cardutil/pinblock.py'
 KEYF = 'cardutil/key.py'
-VBSMODS = ['contracts.mciipm_block', 'contracts.mciipm_vbs']
+VBSMODS = ['contracts.mciipm_block', 'contracts.mciipm_vbs', 'contracts.vbs_lists']
 
 ISO = 'cardutil/iso8583.py'
 ISOMODS = ['contracts.bitarray', 'contracts.iso_field', 'contracts.iso_pds', 'contracts.iso_msg']
@@ -156,7 +156,7 @@ PROPS = {
             (MCI, 'self.out_file.write(struct.pack(">I", 0))\n        self.out_file.seek(0)', 'self.out_file.seek(0)', "close writes no terminator"),
             (MCI, "return record  # get the full record", "return record[1:]  # get the full record", "reader drops first byte"),
         ],
-        'assumptions': ["any NUMBER of records: the per-record step lemmas (writer appends be32(len)++record; reader at that offset returns it and moves past it; reader stops at the terminator) compose by induction over the record list - the induction itself is the standard argument, mechanised only for two-record lists in the convenience-function unit",
+        'assumptions': ["any NUMBER of records: write_many / vbs_list_to_bytes over a symbolic-length record list by loop invariant (stream = prefix ++ VBS[:OFF(i)]), and a ghost client reading VBS(records)++terminator back record by record (reader offset = OFF(j), counter = j+1); the list comprehension in vbs_bytes_to_list is executed for two records only (the ghost client stands for it); blocked files by refinement (Block1014 invariant with ghost data = the stream, Unblock1014.read = reading PAYLOAD)",
                         "struct.pack/unpack('>I') model: big-endian base-256 digits, struct.error outside 0..2**32-1 / wrong buffer size"],
     },
     'C09': {
@@ -214,6 +214,7 @@ PROPS = {
             (CARD, "digits[::-1]", "digits", "digits not reversed"),
             (CARD, "card_number[0:-1]) != card_number[-1]", "card_number[0:-1]) != card_number[0]", "validate compares with first digit"),
         ],
+        'level_note': "Trusted: pyvc, z3/cvc5, the library models listed in evidence. The error-detection clauses (single substitution, adjacent transposition other than 0/9) are lemmas over the Luhn spec the code is proved equal to, proved by induction over the digit count (base and step obligations in contracts/lemmas.py).",
         'assumptions': ["int(c) on a one-character ASCII digit string is the digit value; str(d) for 0<=d<=9 is chr(48+d)",
                         "SIGMA (finite sum) is characterised by its unfolding equations; induction over the length is written out as base/step obligations in contracts/lemmas.py"],
     },
